@@ -22,6 +22,19 @@ const SAVE: &str = "node_registry.save()?;";
 const REFRESH: &str =
     "refresh_node_registry(&mutnode_registry,&ServiceController{},verbosity!=VerbosityLevel::Minimal,false,false,).await?;";
 
+/// does the statement contain a `?` operator (outside macro arguments: `debug!("{x:?}")` is not one)
+fn has_try(st: &syn::Stmt) -> bool {
+    struct V(bool);
+    impl<'ast> syn::visit::Visit<'ast> for V {
+        fn visit_expr_try(&mut self, _e: &'ast syn::ExprTry) {
+            self.0 = true;
+        }
+    }
+    let mut v = V(false);
+    syn::visit::Visit::visit_stmt(&mut v, st);
+    v.0
+}
+
 fn count(hay: &str, needle: &str) -> usize {
     hay.matches(needle).count()
 }
@@ -35,7 +48,7 @@ fn block_saves(what: &str, stmts: &[syn::Stmt]) -> Result<bool, String> {
     match (at.as_slice(), count(&all, "node_registry.save")) {
         ([], 0) => Ok(false),
         ([k], 1) => {
-            if t[..*k].iter().any(|s| s.contains('?')) {
+            if stmts[..*k].iter().any(has_try) {
                 Err(format!("{what}: a `?` in front of `node_registry.save()?` can skip the save"))
             } else {
                 Ok(true)
@@ -116,7 +129,8 @@ fn loop_cmd(file: &syn::File, fname: &str, method: &str) -> Result<Cmd, String> 
 }
 
 /// `call(..).await?; [node_registry.save()?;]` among the statements `t`: the error returns in front of the save.
-fn call_then_save(what: &str, t: &[String], call_prefix: &str) -> Result<Cmd, String> {
+fn call_then_save(what: &str, stmts: &[syn::Stmt], call_prefix: &str) -> Result<Cmd, String> {
+    let t: Vec<String> = stmts.iter().map(toks).collect();
     let at: Vec<usize> = t
         .iter()
         .enumerate()
@@ -134,7 +148,7 @@ fn call_then_save(what: &str, t: &[String], call_prefix: &str) -> Result<Cmd, St
     let saves: Vec<usize> = t.iter().enumerate().filter(|(_, s)| *s == SAVE).map(|(i, _)| i).collect();
     let saves_on_ok = match (saves.as_slice(), count(&all, "node_registry.save")) {
         ([], 0) => false,
-        ([j], 1) if *j > k && !t[k + 1..*j].iter().any(|s| s.contains('?')) => true,
+        ([j], 1) if *j > k && !stmts[k + 1..*j].iter().any(has_try) => true,
         _ => return Err(format!("{what}: `node_registry.save` occurs at an unexpected place")),
     };
     if count(&all, "refresh_node_registry") != 0 {
@@ -164,8 +178,7 @@ pub fn read(repo: &PathBuf) -> Result<Layer, String> {
     let upgrade = loop_cmd(&file, "upgrade", "upgrade")?;
 
     let add_fn = free_fn(&file, "add")?;
-    let t: Vec<String> = add_fn.block.stmts.iter().map(toks).collect();
-    let add = call_then_save("cmd::node::add", &t, "=add_node(options,&mutnode_registry,")?;
+    let add = call_then_save("cmd::node::add", &add_fn.block.stmts, "=add_node(options,&mutnode_registry,")?;
 
     // `status`: everything happens inside `if !node_registry.nodes.is_empty() { .. }`
     let status_fn = free_fn(&file, "status")?;
@@ -182,8 +195,7 @@ pub fn read(repo: &PathBuf) -> Result<Layer, String> {
     if blocks.len() != 1 || count(&sbody, "status_report(") != 1 {
         return Err("cmd::node::status: expected one `if !node_registry.nodes.is_empty() { status_report(..) .. }`".into());
     }
-    let t: Vec<String> = blocks[0].stmts.iter().map(toks).collect();
-    let status = call_then_save("cmd::node::status", &t, "status_report(&mutnode_registry,")?;
+    let status = call_then_save("cmd::node::status", &blocks[0].stmts, "status_report(&mutnode_registry,")?;
     if count(&sbody, "node_registry.save") != status.saves_on_ok as usize {
         return Err("cmd::node::status: `node_registry.save` occurs outside the status block".into());
     }
